@@ -337,6 +337,17 @@ def gen_cases(ctx, inv):
                         intent = {"kind": "req", "id": "$wire", "method": "tools/call", "params": {"name": nm, "arguments": p},
                                   "result": None, "error": None}
                     hk({**base, "name": nm, "arguments": p} if "name" in names else {**base, "arguments": p}, intent)
+                # arguments as tools really get them - credentials among them, nested - with the application's logging at
+                # DEBUG and at its default: the emitted request carries the arguments GIVEN
+                for p in CREDENTIAL_ARGS:
+                    for dbg in (False, True):
+                        nm = V.rot(STRS)
+                        intent = None
+                        if fn == "send_tools_call":
+                            intent = {"kind": "req", "id": "$wire", "method": "tools/call", "params": {"name": nm, "arguments": p},
+                                      "result": None, "error": None}
+                        hk({**base, "name": nm, "arguments": copy.deepcopy(p)} if "name" in names else {**base, "arguments": copy.deepcopy(p)},
+                           intent, **({"debug_logging": True} if dbg else {}))
             elif pn in ("name", "uri", "cursor", "reason", "message", "preferred_version"):
                 for s in STRS:
                     hk({**base, pn: s})
@@ -594,6 +605,12 @@ def fill_intent(intent, wire_view):
 
 
 _DIRECT_TICK = itertools.count()
+CREDENTIAL_ARGS = [
+    {"password": "p1", "user": "u"},
+    {"headers": {"Authorization": "Bearer abc", "Accept": "*/*"}, "url": "http://x/"},
+    {"steps": [{"op": "login", "token": "t-1"}, {"op": "fetch", "api_key": "k-2", "secret": "s"}]},
+    {"config": {"db": {"PASSWORD": "P", "Token": "T", "apiKey": "K"}}, "cookie": "c=1", "session": {"id": 5}},
+]
 DRIVEN = {"stdio-transport", "stdiotext-transport", "http-transport", "sse-transport"}
 
 
